@@ -629,6 +629,31 @@ def csGateVerdict (strict userCallback gatedMethod covered : Bool) : Option Nat 
   else if userCallback then some 200
   else if strict then some 403 else none
 
+/-! ## the decrypters of ONE route group (rest/engine.go `signatureVerifier`, the loop over `signature.PrivateKeys`) -/
+
+/-- `PrivateKeyConf`: (Fingerprint, KeyFile) -/
+abbrev KeyConf := String × String
+
+/-- the loop of `signatureVerifier`: a map made FRESH for this group (`make(map[string]codec.RsaDecrypter)`), then one
+`decrypters[key.Fingerprint] = NewRsaDecrypter(key.KeyFile)` per configured key, in order; `none` = a key file could not
+be loaded. The map is an association list in assignment order (`decrypterOf`: the last assignment wins). Nothing of the
+engine or of another group goes into it. -/
+def loadDecrypters {D : Type} (load : String → Option D) (keys : List KeyConf) : Option (List (String × D)) :=
+  keys.foldl (fun acc k => acc.bind fun m => (load k.2).map fun d => m ++ [(k.1, d)]) (some [])
+
+/-- `decrypters[fingerprint]` -/
+def decrypterOf {D : Type} (m : List (String × D)) (fp : String) : Option D :=
+  (m.reverse.find? (·.1 = fp)).map (·.2)
+
+/-- the `rsa` parameter of `CsEnv` for a gate that was handed the map `m`:
+`decrypter, ok := decrypters[fingerprint]; if !ok → ErrInvalidPublicKey; decrypter.DecryptBase64(secret)` -/
+def groupRsa {D : Type} (dec : D → String → Option String) (m : List (String × D)) (fp secret : String) : RsaRes :=
+  match decrypterOf m fp with
+  | none => .noKey
+  | some d => match dec d secret with
+    | none => .err
+    | some plain => .ok plain
+
 /-! ## RSA chunking (core/codec/rsa.go `rsaBase.crypt`) -/
 
 def mapChunks (f : Bytes → Option Bytes) : List Bytes → Option Bytes
